@@ -18,11 +18,12 @@ TRACE_CFG = """SPECIFICATION TraceSpec
 CONSTANTS MaxLen = 0 MaxDepth = 100000000 Alpha = {}
 Funcs <- FuncsAll
 Mode = "%s"
+Strict = {"sen.Parser.Parse", "sen.Parser.ParseReader"}
 MaxBad = 4000
 CHECK_DEADLOCK FALSE
 POSTCONDITION Post
 """
-NAMES = {-1: "EOF", 49: "1-9", 128: "0x80-0xff", 239: "0xEF", 32: "ws", 13: "\\r", 10: "\\n", 1: "ctl", 36: "$*<>?@", 33: "!#%&;=`|",
+NAMES = {-1: "EOF", 49: "1-9", 128: "0x80-0xff", 239: "0xEF", 32: "ws", 13: "\\r", 10: "\\n", 1: "ctl", 36: "$<>?@", 33: "!#%&;=`|",
          110: "bfnrt", 97: "hexletter", 120: "tokenbyte"}
 
 
@@ -112,14 +113,59 @@ def probe_loci(ctx, items):
         o = json.loads(line)
         api, bs, k = order[o["id"]]
         if o["k"] == 0:
-            res[(api, bs)] = ["whole-input-only", "", -2, "-"]
+            res[(api, bs)] = (["whole-input-only", "", -2, "-"], None)
         else:
             s = steps[k][o["k"] - 1]
-            res[(api, bs)] = [s["pc"], s["ex"], s["cls"], s["top"]]
+            # a silent divergence (see TraceSenReader!SilentDivergence) strictly before the located transition still names the cause
+            sd = [x["sd"] for x in steps[k][:o["k"] - 1] if x["sd"]]
+            res[(api, bs)] = ([s["pc"], s["ex"], s["cls"], s["top"]], sd[0] if sd else "")
     return [res[(api, json.dumps(b))] for api, b in items]
 
 
 _AMB, _DRIFT = {}, {}
+def validate(ctx, trace, chunk=25000, heap="5g", timeout=1500):
+    """ctx.validate, but the trace specification's extra output (deviations of the non-strict front-ends) is kept."""
+    import concurrent.futures as cf
+    import shutil
+    with open(trace, "rb") as f:
+        lines = [l for l in f.readlines() if l.strip()]
+    if not lines:
+        return {"n": 0, "bad": [], "hits": {}, "nbad": 0, "others": []}
+    chunks = [(s, lines[s:s + chunk]) for s in range(0, len(lines), chunk)]
+
+    def one(sc):
+        s, ls = sc
+        r = ctx.tlc("TraceSenReader", TRACE_CFG % "judge", files={"trace.ndjson": b"".join(ls)}, workers=1, timeout=timeout,
+                    heap=heap, quiet=True)
+        outp = os.path.join(r.dir, "out.json")
+        if r.error or r.violated or not os.path.exists(outp):
+            raise Infra("trace validation TraceSenReader failed (rc=%d):\n%s" % (r.rc, r.out[-3000:]))
+        o = json.load(open(outp))
+        if o.get("n") != len(ls):
+            raise Infra("trace spec TraceSenReader consumed %s of %d cases" % (o.get("n"), len(ls)))
+        if not ctx.keep:
+            shutil.rmtree(r.dir, ignore_errors=True)
+        return s, o
+
+    res = {"n": 0, "bad": [], "hits": {}, "nbad": 0, "others": []}
+    with cf.ThreadPoolExecutor(max(1, min(len(chunks), verif.NCPU // 2))) as ex:
+        for s, o in ex.map(one, chunks):
+            res["n"] += o["n"]
+            res["nbad"] += o.get("nbad", 0)
+            for key in ("bad", "others"):
+                for b in o.get(key, []):
+                    b["i"] += s
+                    res[key].append(b)
+            for k, v in (o.get("hits") or {}).items():
+                res["hits"][k] = res["hits"].get(k, 0) + v
+    ctx.cov["traces_validated_against_impl"] += res["n"]
+    if res["nbad"] > len(res["bad"]):
+        raise Infra("%d deviations of the strict front-ends, only %d kept: raise MaxBad" % (res["nbad"], len(res["bad"])))
+    log("validated %d cases with TraceSenReader: %d deviations of the strict front-ends, %d of the others (%d kept)" % (
+        res["n"], res["nbad"], res["hits"].get("others", 0), len(res["others"])))
+    return res
+
+
 AMB_KEY = re.compile(r'^<<<<"([^"]*)", "([^"]*)", (-?\d+), "([^"]*)">>, (\d), "([^"]*)">>$')
 
 
@@ -132,21 +178,21 @@ def judge(ctx, cases):
     trace, hang = exec_cases(ctx, cases)
     if hang is not None:
         return [{"api": "sen.Parser", "kind": "hang", "locus": "(hang)", "witness": to_text(hang["b"]), "case": {"b": hang["b"]}}]
-    res = ctx.validate("TraceSenReader", trace, cfg=TRACE_CFG % "judge", chunk=25000, heap="5g", timeout=1500)
+    res = validate(ctx, trace)
     napi = 5
     ctx.cov["evaluations"] += res["n"] * napi
     for k in ("acc", "rej", "any", "values"):
         ctx.cov["spec_verdict_" + k] = ctx.cov.get("spec_verdict_" + k, 0) + res["hits"].get(k, 0)
     amb = _AMB
+    ctx.cov["deviations_other_front_ends"] = ctx.cov.get("deviations_other_front_ends", 0) + res["hits"].get("others", 0)
     for k in res["hits"]:
         m = AMB_KEY.match(k)
         if m:
             loc = locus_str([m.group(1), m.group(2), int(m.group(3)), m.group(4)])
             amb.setdefault((loc, m.group(6)), set()).add(int(m.group(5)))
-    recs, lines, need = [], None, []
+    recs, need = [], []
+    lines = open(trace, "rb").readlines() if res["bad"] or res["others"] else []
     for b in res["bad"]:
-        if lines is None:
-            lines = open(trace, "rb").readlines()
         case = json.loads(lines[b["i"] - 1])
         for api in b["as"]:
             rec = {"api": api, "kind": b["kind"], "loc": b["loc"], "witness": to_text(case["b"]), "case": {"b": case["b"]},
@@ -154,28 +200,25 @@ def judge(ctx, cases):
             if b["kind"] == "rejects-valid":
                 need.append(rec)
             recs.append(rec)
-    # rejects-valid: the locus comes from completion probing (strict front-ends only; the others are informational)
-    strict_need = [r for r in need if r["api"] in STRICT]
-    strict_need.sort(key=lambda r: len(r["case"]["b"]))
-    budget = 1500 if ctx.quick else 6000
-    probed = probe_loci(ctx, [(r["api"], r["case"]["b"]) for r in strict_need[:budget]])
-    for r, loc in zip(strict_need[:budget], probed):
+    # rejects-valid: the locus comes from completion probing
+    probed = probe_loci(ctx, [(r["api"], r["case"]["b"]) for r in need])
+    for r, (loc, mark) in zip(need, probed):
         r["loc"] = loc
-    for r in strict_need[budget:]:
-        r["loc"] = None
+        if mark is not None:
+            r["mark"] = mark
     out = []
-    drift = _DRIFT
     for r in recs:
-        if r["loc"] is None:
-            continue
         r["locus"] = locus_str(r["loc"]) + ("@" + r["mark"] if r["mark"] else "")
-        if r["api"] in STRICT:
-            out.append(r)
-        else:
-            d = drift.setdefault((r["api"], r["kind"], r["locus"] if r["kind"] != "rejects-valid" else "(not probed)"), [0, r["witness"]])
+        out.append(r)
+    # the other front-ends: tallied only
+    for b in res["others"]:
+        w = to_text(json.loads(lines[b["i"] - 1])["b"])
+        locus = "(not probed)" if b["kind"] == "rejects-valid" else locus_str(b["loc"])
+        for api in b["as"]:
+            d = _DRIFT.setdefault((api, b["kind"], locus), [0, w])
             d[0] += 1
-            if verif.wsize(r["witness"]) < verif.wsize(d[1]):
-                d[1] = r["witness"]
+            if verif.wsize(w) < verif.wsize(d[1]):
+                d[1] = w
     return out
 
 
